@@ -158,6 +158,10 @@ type client struct {
 	connM sync.Mutex
 	conn  net.Conn
 
+	// writeM serializes writes of requests to conn: a request can be written
+	// with more than one Write call and requests are sent by multiple goroutines
+	writeM sync.Mutex
+
 	// Address of the RegionServer.
 	addr  string
 	ctype ClientType
@@ -670,12 +674,14 @@ func (c *client) send(rpc hrpc.Call) (uint32, error) {
 	}
 
 	rpcSize.WithLabelValues(c.Addr()).Observe(float64(uint32(len(b)) + cellblocksLen))
+	c.writeM.Lock()
 	if cellblocks != nil {
 		bfs := append(net.Buffers{b}, cellblocks...)
 		_, err = bfs.WriteTo(c.conn)
 	} else {
 		err = c.write(b)
 	}
+	c.writeM.Unlock()
 	if err != nil {
 		return id, ServerError{err}
 	}
